@@ -81,10 +81,13 @@ CalendarLaw == i # 0 \/ \A y \in {1900, 2000, 2020, 2021, 2100} :
    Cardinality({md \in (0..13) \X (0..32) : FmtDate(DateTxt(y, md[1], md[2])) = "T"}) = (IF y \in {2000, 2020} THEN 366 ELSE 365)
 
 (* ---- three-valued: an opaque sub-schema never flips a definite verdict, negation is an involution ---- *)
-Small == {S @@ [type |-> <<"integer">>], S @@ [minimum |-> 1], S @@ [enum |-> <<I(0), [t |-> "null"]>>],
-          S @@ [type |-> <<"string">>, nullable |-> TRUE], S @@ [not |-> S @@ [maximum |-> 0]]}
-Vals == {I(0), I(1), [t |-> "null"], [t |-> "str", v |-> <<97>>], [t |-> "bool", v |-> TRUE], Half(0)}
-LogicLaw == i # 0 \/ \A s \in Small, v \in Vals :
+(* pools are SEQUENCES: values of different JSON types share the field name v and TLC cannot compare an integer with a boolean *)
+Small == <<S @@ [type |-> <<"integer">>], S @@ [minimum |-> 1], S @@ [enum |-> <<I(0), [t |-> "null"]>>],
+           S @@ [type |-> <<"string">>, nullable |-> TRUE], S @@ [not |-> S @@ [maximum |-> 0]]>>
+Vals == <<I(0), I(1), [t |-> "null"], [t |-> "str", v |-> <<97>>], [t |-> "bool", v |-> TRUE], Half(0)>>
+LogicLaw == i # 0 \/ \A si \in DOMAIN Small, vi \in DOMAIN Vals :
+   LET s == Small[si]
+       v == Vals[vi] IN
    /\ V(S @@ [not |-> S @@ [not |-> s]], v) = V(s, v)
    /\ V(S @@ [not |-> s], v) = Not3(V(s, v))
    /\ V(S @@ [allOf |-> <<s, Opq>>], v) = (IF V(s, v) = "F" THEN "F" ELSE "U")
